@@ -183,6 +183,13 @@ func (ts *timeSeries) AddWithTime(observation Observable, t time.Time) {
 		ts.advance(t)
 		ts.mergePendingUpdates()
 		ts.pendingTime = ts.levels[0].end
+		if !t.After(ts.pendingTime.Add(-1 * smallBucketDuration)) {
+			// Latest or LatestBuckets advanced the levels past the bucket
+			// that t falls into, so the observation is older than the
+			// newest bucket and must not be held as pending for it.
+			ts.mergeValue(observation, t)
+			return
+		}
 		ts.pending.CopyFrom(observation)
 		ts.dirty = true
 	} else if t.After(ts.pendingTime.Add(-1 * smallBucketDuration)) {
